@@ -43,6 +43,40 @@ def res_bool(f):
     return "ok:?%r" % (r,)
 
 
+# pools whose order (built with the real operators) is not the order of the scheme's Lean model: filled by Bench,
+# read by the runner, which registers each entry as a broken tie of the property being checked
+MISMATCHES = []
+_HAS_MODEL = {}
+
+
+def _has_model(name):
+    if name not in _HAS_MODEL:
+        _HAS_MODEL[name] = common.run_model(["vparse %s %s" % (name, common.hx("1"))])[0] != "bad-op"
+    return _HAS_MODEL[name]
+
+
+def check_pool_against_model(name, pool):
+    """the ranked pool is built with the REAL operators; the Layer-B checks talk to the model in ranks.  Here the
+    pool's classes are put to the scheme's model: neighbours must be `lt`, members of one class `eq`."""
+    if not _has_model(name):
+        return
+    pairs = []
+    for i, cl in enumerate(pool.classes):
+        for t, _v in cl[1:]:
+            pairs.append((cl[0][0], t, "eq"))
+        if i + 1 < len(pool.classes):
+            pairs.append((cl[0][0], pool.classes[i + 1][0][0], "lt"))
+    pairs = [p for p in pairs if p[0].isascii() and p[1].isascii()]
+    if not pairs:
+        return
+    ans = common.run_model(["vcmp %s %s %s" % (name, common.hx(a), common.hx(b)) for a, b, _ in pairs])
+    for (a, b, want), got in zip(pairs, ans):
+        sign = got.split(" ")[0]
+        if sign in ("lt", "eq", "gt") and sign != want:
+            MISMATCHES.append({"scheme": name, "a": a, "b": b, "real_operators_say": want, "model_says": sign})
+            return
+
+
 class Bench:
     """real versions of one scheme addressed by rank"""
 
@@ -51,6 +85,7 @@ class Bench:
         self.cls = S.vclass(name)
         # need_hash=False: members whose hash disagrees with == stay in (for properties that do not speak about hashing)
         self.pool = pools.build_pool(name, rng, size=size, need_hash=need_hash, respell=respell)
+        check_pool_against_model(name, self.pool)
         self.rng = rng
         self.rclass = S.rclass(name) or _generic_range_for(self.cls)
 
